@@ -9,6 +9,12 @@ SPEC = {
         {"name": "blind", "pkg": O4, "kind": "rapid", "run": "^TestVerifC05Blind$",
          "quick": {"checks": 250, "shards": 4, "timeout": 300},
          "thorough": {"checks": 1500, "shards": 8, "timeout": 3000}},
+        {"name": "duplex", "pkg": O4, "kind": "rapid", "run": "^TestVerifC05Duplex$",
+         "quick": {"checks": 60, "shards": 4, "timeout": 300},
+         "thorough": {"checks": 400, "shards": 8, "timeout": 3000}},
+        {"name": "duplex-race", "pkg": O4, "kind": "rapid", "run": "^TestVerifC05Duplex$",
+         "quick": {"checks": 20, "shards": 1, "timeout": 300, "race": True},
+         "thorough": {"checks": 150, "shards": 6, "timeout": 3000, "race": True}},
         {"name": "bit-enum", "pkg": O4, "kind": "plain", "run": "^TestVerifC05BitEnum$",
          "quick": {"shards": 4, "timeout": 300}, "thorough": {"shards": 16, "timeout": 3000}},
         {"name": "fuzz", "pkg": O4, "kind": "fuzz", "fuzz": "FuzzVerifC05TamperedStream",
